@@ -92,8 +92,11 @@ func validatePermTree(root *ptree.PermNode, isAccount bool) (bool, error) {
 		} else if nameCheck == 1 {
 			// current node is Account, so validation using ACLValidator
 			if pnode.ACL == nil {
-				// empty ACL means everyone could pass ACL validation
-				checkResult = true
+				// empty ACL means everyone could pass ACL validation; that holds for
+				// what the tree is built for (a method nobody restricted, an account
+				// about to be created), an account further down without ACL does
+				// not exist and nobody can act for it
+				checkResult = (i == 0)
 			} else {
 				if pnode.ACL.Pm == nil {
 					return false, errors.New("Acl has empty Pm field")
